@@ -85,25 +85,25 @@ Definition eval_op (ofl : lit -> T) (cotf : vec T -> vec T -> vec T -> T)
     (V : list (vec T)) (F : list face) (C : list cell) (E : list edge) (op : opc) : (Z * Z) * mat T :=
   let n := zlen V in let m := zlen E in let nf := zlen F in let nc := zlen C in
   match op with
-  | OLap true => ((n, n), laplacian_cotan OP cotf V F)
-  | OLap false => ((n, n), laplacian_uniform OP F)
-  | OGraphLap => ((n, n), graph_laplacian OP n E)
+  | OLap true => (lap_shape n, laplacian_cotan OP cotf V F)
+  | OLap false => (lap_shape n, laplacian_uniform OP F)
+  | OGraphLap => (gl_shape n m, graph_laplacian OP n E)
   | OCed inv => ((m, m), cotan_edge_diagonal OP cotf inv V F E)
-  | OLapTri true => ((nf, nf), lapt_weighted OP (ced_coeffs OP cotf true V F E) (dual_pairs F E))
+  | OLapTri true => ((nf, nf), lapt_weighted OP (ced_coeffs OP cotf ced_default_inverse V F E) (dual_pairs F E))
   | OLapTri false => ((nf, nf), lapt_plain OP (dual_pairs F E))
   | OLapEdges true => ((m, m), laplacian_edges_cotan OP cotf V E F)
   | OLapEdges false => ((m, m), laplacian_edges_uniform OP E F)
-  | OGradRe fl => ((nf, n), re_part (gradient_complex OP V F (if fl then flat_bases OP V F else conn_bases OP V F)))
-  | OGradIm fl => ((nf, n), im_part (gradient_complex OP V F (if fl then flat_bases OP V F else conn_bases OP V F)))
-  | OGradReal fl => ((grad_real_nrows nf, n), gradient_real OP V F (if fl then flat_bases OP V F else conn_bases OP V F))
+  | OGradRe fl => (grad_shape nf n, re_part (gradient_complex OP V F (if fl then flat_bases OP V F else conn_bases OP V F)))
+  | OGradIm fl => (grad_shape nf n, im_part (gradient_complex OP V F (if fl then flat_bases OP V F else conn_bases OP V F)))
+  | OGradReal fl => (grad_shape (grad_real_nrows nf) n, gradient_real OP V F (if fl then flat_bases OP V F else conn_bases OP V F))
   | OMassV inv sq => ((n, n), mass_vertices OP inv sq n V F)
   | OMassF inv => ((nf, nf), mass_faces OP inv V F)
   | OMassE inv => ((m, m), mass_edges OP inv V F E)
-  | OAdjOne => ((n, n), adjacency (w_one OP E) E)
-  | OAdjLen => ((n, n), adjacency (w_length OP V E) E)
-  | OAdjCustom w => ((n, n), adjacency (map ofl w) E)
-  | OV2E ori => ((n, m), vertex_to_edge OP ori E)
-  | OV2F => ((nf, n), vertex_to_face OP F)
+  | OAdjOne => (adj_shape n m, adjacency (w_one OP E) E)
+  | OAdjLen => (adj_shape n m, adjacency (w_length OP V E) E)
+  | OAdjCustom w => (adj_shape n m, adjacency (w_custom (map ofl w)) E)
+  | OV2E ori => (v2e_shape n m, vertex_to_edge OP ori E)
+  | OV2F => (v2f_shape n nf, vertex_to_face OP F)
   | OVolLap => ((n, n), volume_laplacian OP V C E)
   | OTetLap => ((nc, nc), laplacian_tetrahedra OP C)
   | OMassVV inv sq => ((n, n), mass_vol_vertices OP inv sq n V C)
